@@ -880,6 +880,8 @@ def rule_impulsetrain(ctx):
     s = ctx.S.get(f.qual)
     cor = [c for c in s.calls() if c.callee == "np.correlate"]
     need(len(cor) == 1 and len(cor[0].args) >= 2, R, "p_score: np.correlate call not found")
+    mode = cor[0].args[2] if len(cor[0].args) > 2 else dict(cor[0].kw).get("mode")
+    yield ob(R, f, "beat.p_score:correlate-mode", mode is not None and tm.is_const(mode, "full"), "the trains are correlated in mode 'full': the lag window is cut around the middle of the full correlation" if mode is not None and tm.is_const(mode, "full") else "np.correlate runs in mode %s: the middle-lag arithmetic below assumes the full correlation, and a window wider than the shorter output wraps to a negative slice start" % (tm.show(mode, 1) if mode is not None else "'valid' (the default)"), node=cor[0].node)
     for i, a in enumerate(cor[0].args[:2]):
         o = a
         stores = []
